@@ -2,6 +2,7 @@ package h
 
 import (
 	"fmt"
+	"io"
 	"math"
 	"net/http"
 	"net/http/httptest"
@@ -21,11 +22,33 @@ func init() {
 
 // scrape reads the /metrics endpoint the way a poller would and returns the int metrics of one
 // histogram keyed by statistic, plus counters by name.
+// ScrapeDuplicate is set when a scrape reports one metric (name and tags) on two lines.
+var ScrapeDuplicate string
+
+// failingWriter is a poller that has hung up: the reply cannot be written.
+type failingWriter struct{ h http.Header }
+
+func (f *failingWriter) Header() http.Header       { return f.h }
+func (f *failingWriter) Write([]byte) (int, error) { return 0, io.ErrClosedPipe }
+func (f *failingWriter) WriteHeader(int)           {}
+
+// abortedScrape requests /metrics for a poller that is gone before the page is written.
+func abortedScrape() {
+	http.DefaultServeMux.ServeHTTP(&failingWriter{h: http.Header{}}, httptest.NewRequest("GET", "/metrics", nil))
+}
+
 func scrape(histName string) (stats map[string]uint64, counters map[string]uint64, present map[string]bool) {
 	rec := httptest.NewRecorder()
 	http.DefaultServeMux.ServeHTTP(rec, httptest.NewRequest("GET", "/metrics", nil))
 	stats, counters, present = map[string]uint64{}, map[string]uint64{}, map[string]bool{}
+	heads := map[string]bool{}
 	for _, ln := range strings.Split(rec.Body.String(), "\n") {
+		if sp := strings.LastIndexByte(ln, ' '); sp > 0 && (strings.HasPrefix(ln, "hist_"+histName+"|") || strings.HasPrefix(ln, "verifctr")) {
+			if heads[ln[:sp]] && ScrapeDuplicate == "" {
+				ScrapeDuplicate = ln[:sp]
+			}
+			heads[ln[:sp]] = true
+		}
 		sp := strings.LastIndexByte(ln, ' ')
 		if sp < 0 {
 			continue
@@ -225,10 +248,25 @@ func runC18(c *rt.Ctx) {
 					}
 					var st map[string]uint64
 					var present map[string]bool
+					twice := false
 					viaHTTP := pi < 2
 					var clause, detail string
 					if viaHTTP {
+						if pi == 1 && item%2 == 0 {
+							twice = true
+							// a poller asked for the page and hung up before it could be written: this
+							// period's page (data is taken out of the histograms when it is rendered)
+							// is lost, the next poller must still get a page of its own
+							abortedScrape()
+							for _, v := range obs {
+								metrics.ObserveHist(id, v)
+							}
+						}
 						st, _, present = scrape(name)
+						if ScrapeDuplicate != "" {
+							c.Violation("C18 metric-reported-twice", "one scrape lists "+ScrapeDuplicate+" on two lines (with different values, a poller cannot tell which is this period's)", map[string]interface{}{"sampled": sampled, "observations": obs})
+							ScrapeDuplicate = ""
+						}
 						clause, detail = checkPeriod(obs, sampled, st["count"], st["kept"], st, present["percentile50"])
 					} else {
 						s := metrics.VerifExtractHist(id)
@@ -255,6 +293,9 @@ func runC18(c *rt.Ctx) {
 					var delta uint64
 					for k := range after {
 						delta += after[k] - before[k]
+					}
+					if twice {
+						delta /= 2 // the period was observed once more after the aborted scrape
 					}
 					if delta != uint64(len(obs)) {
 						c.Violation("C18 bucket-count", fmt.Sprintf("bucket counts grew by %d for %d observations", delta, len(obs)), map[string]interface{}{"observations": obs})
